@@ -128,7 +128,7 @@ Record inv_x (B : nat) (exc : path) (sv : server) : Prop := mkInv {
   inv_tree : wf_tree (sv_tree sv);
   inv_ids : NoDup (map s_id (sv_sessions sv));
   inv_dirs_nodup : NoDup (map session_dir (sv_sessions sv));
-  inv_subs : forall ss, In ss (sv_sessions sv) -> wf_groups (m_groups (s_subs ss)) /\ num_entries (s_subs ss) <= B;
+  inv_subs : forall ss, In ss (sv_sessions sv) -> wf_matcher (s_subs ss) /\ num_entries (s_subs ss) <= B;
   inv_dirs : forall ss, In ss (sv_sessions sv) -> session_dir ss = exc \/ has_node (sv_tree sv) (session_dir ss) = true;
   inv_depth2 : forall n, In n (sv_tree sv) -> length (n_path n) = 2 ->
                          exists ss, In ss (sv_sessions sv) /\ session_dir ss = n_path n;
@@ -225,7 +225,7 @@ Proof. intros B m p H1 H2. unfold small in H2. pose proof (count_le_entries m p)
 (* NotifySubscribersOfNewNode: the table a new node starts with *)
 Lemma new_table_fold : forall B p (l : list session) tb,
   small B -> NoDup (map s_id l) ->
-  (forall ss, In ss l -> wf_groups (m_groups (s_subs ss)) /\ num_entries (s_subs ss) <= B) ->
+  (forall ss, In ss l -> wf_matcher (s_subs ss) /\ num_entries (s_subs ss) <= B) ->
   tbl_ok tb -> (forall ss, In ss l -> tbl_get tb (s_id ss) = 0%N) ->
   let R := fold_left (fun tb ss => tbl_adjust tb (s_id ss) (i32_of_u32 (u32 (match_count (s_subs ss) p None 0)))) l tb in
   tbl_ok R /\ forall s, tbl_get R s = match find_session l s with
@@ -239,7 +239,7 @@ Proof.
   destruct (Hwf x (or_introl eq_refl)) as [Hwx Hbx].
   assert (Hcx : forall s, tbl_get tb1 s = if N.eqb (s_id x) s then N.of_nat (count_matching (s_subs x) p) else tbl_get tb s).
   { intros s. unfold tb1. rewrite tbl_adjust_get by auto. destruct (N.eqb (s_id x) s); auto.
-    rewrite (H0 x (or_introl eq_refl)), match_count_spec by auto. apply adj_new.
+    rewrite (H0 x (or_introl eq_refl)), match_count_spec by (apply Hwx). apply adj_new.
     pose proof (count_bound B (s_subs x) p Hbx HB). lia. }
   destruct (IH tb1 HB Hnd') as [R1 R2].
   - intros ss Hss. apply Hwf. now right.
@@ -495,7 +495,7 @@ Qed.
 
 Lemma inv_remark : forall B B' exc sv s ss m' mk delta,
   inv_x B exc sv -> get_session sv s = Some ss -> B <= B' ->
-  wf_groups (m_groups m') -> num_entries m' <= B' -> wf_groups (m_groups mk) ->
+  wf_matcher m' -> num_entries m' <= B' -> wf_groups (m_groups mk) ->
   (forall n, In n (sv_tree sv) ->
      N.of_nat (count_matching m' (n_path n))
      = if matches_node mk (n_path n) None 0
@@ -566,7 +566,7 @@ Proof. intros [t l d]. reflexivity. Qed.
 
 (* a change of one session's subscriptions that does not change any match count *)
 Lemma inv_set_subs : forall B exc sv s ss m', inv_x B exc sv -> get_session sv s = Some ss ->
-  wf_groups (m_groups m') -> num_entries m' <= B ->
+  wf_matcher m' -> num_entries m' <= B ->
   (forall p, count_matching m' p = count_matching (s_subs ss) p) ->
   inv_x B exc (upd_session sv s (fun x => set_subs x m')).
 Proof.
@@ -618,7 +618,7 @@ Proof.
     apply (inv_weaken B); auto.
     rewrite (upd_session_ext sv1 s _ (fun x => set_subs x (m_set_filter (s_subs ss1) (fix_path sp) f))).
     + apply (inv_set_subs B exc sv1 s ss1); auto.
-      * rewrite Hsub. now apply wf_set_filter.
+      * rewrite Hsub. now apply wf_matcher_set_filter.
       * rewrite num_entries_set_filter, Hsub. exact Hn.
       * intros p. apply count_matching_set_filter.
     + intros x Hx Hid. now rewrite (session_unique sv1 s ss1 x (inv_ids _ _ _ I1) Hss1 Hx Hid).
@@ -626,7 +626,7 @@ Proof.
     rewrite (upd_session_ext sv s _ (fun x => set_subs x (m_put (s_subs ss) (fix_path sp) f))).
     + change (sv_tree (upd_session sv s (fun x => set_subs x (m_put (s_subs ss) (fix_path sp) f)))) with (sv_tree sv).
       apply (inv_remark B (S B) exc sv s ss); auto.
-      * now apply wf_put.
+      * now apply wf_matcher_put.
       * pose proof (num_entries_put (s_subs ss) (fix_path sp) f). lia.
       * unfold single. now apply single_wf.
       * intros n Hn'. unfold single. rewrite single_matches by auto.
@@ -648,11 +648,11 @@ Proof.
   assert (Hne : fix_path sp <> []).
   { intros E. rewrite E in Hrm. unfold m_remove, m_get in Hrm. cbn in Hrm.
     assert (Hg : forall e, In e (group_get (m_groups (s_subs ss)) 0) -> False).
-    { intros e He. apply group_get_in in He as [g [Hg [Hd _]]]. destruct Hw as [_ Hw]. destruct (Hw g Hg) as [_ [H1 _]]. lia. }
+    { intros e He. apply group_get_in in He as [g [Hg [Hd _]]]. destruct Hw as [[_ Hw] _]. destruct (Hw g Hg) as [_ [H1 _]]. lia. }
     destruct (group_get (m_groups (s_subs ss)) 0) as [|e0 l]; [discriminate|]. apply (Hg e0). now left. }
   change (sv_tree (upd_session sv s (fun x => set_subs x m'))) with (sv_tree sv).
   apply (inv_remark B B exc sv s ss); auto.
-  - now apply (wf_remove (s_subs ss) (fix_path sp)).
+  - now apply (wf_matcher_remove (s_subs ss) (fix_path sp)).
   - pose proof (num_entries_remove _ _ _ Hrm). lia.
   - unfold single. now apply single_wf.
   - intros n Hn'. unfold single. rewrite single_matches by auto.
@@ -931,7 +931,7 @@ Proof.
   destruct (inv_subs _ _ _ I3 ss3 Hin3) as [Hw3 Hn3].
   (* unmark, then forget the session *)
   pose proof (inv_remark B B (session_dir ss) sv3 s ss3 empty_matcher (s_subs ss) cleanup_delta I3 Hss3 (le_n _)
-                (proj1 wf_empty)) as Hrem.
+                wf_empty) as Hrem.
   assert (Irem : inv_x B (session_dir ss)
             (set_tree (upd_session sv3 s (fun x => set_subs x empty_matcher))
                       (mark_nodes fx (sv_tree sv3) (s_subs ss) s cleanup_delta))).
